@@ -22,3 +22,14 @@ Proof.
   exists (d6_world true), 0%nat, 1%nat, d6_op. split; [discriminate|]. split; [reflexivity|].
   left. vm_compute. discriminate.
 Qed.
+
+(* ------------------------------------------------------------------ process-wide state: the generated inventory is audited *)
+From QV Require Import Gen.Globals Sys.GlobalAudit.
+
+(* every writable static of the libqpdf.a built from /repo has an entry in the audit table *)
+Lemma globals_all_audited_lemma : forallb audited inventory = true.
+Proof. vm_compute. reflexivity. Qed.
+
+(* ... and the ones classified as shared-and-mutable are exactly the statics of the recorded finding *)
+Lemma globals_shared_mutable_are_known_lemma : filter is_shared_mutable inventory = d6_statics.
+Proof. vm_compute. reflexivity. Qed.
